@@ -24,15 +24,26 @@ namespace GState
 def ver (s : GState) (n : Name) : Nat := (AL.get? s.versions n).getD 0
 
 /-- does `update_value` advance the version?  new name, emit sentinel (always fresh), or changed
-value.  "Changed" is Python's `old != new`, i.e. the negation of `Val.pyEq` (NOT structural
-inequality: replacing `1` by `True` does not advance the version). -/
+value.  "Changed" is `type(old) is not type(new) or old != new` (`Val.changed`, i.e.
+`!(Val.sameType old v) || !(Val.pyEq old v)`): a value of another top-level type
+always counts as a change, and within one type Python's `!=` decides, i.e. the
+negation of `Val.pyEq` (NOT structural inequality: replacing `[1]` by `[True]` does not advance
+the version, both are lists and compare equal; replacing `1` by `True` does). -/
 def bumps (s : GState) (n : Name) (v : Val) : Bool :=
+  match AL.get? s.values n with
+  | .none => true
+  | some old => v == .sentinel || Val.changed old v
+
+/-- pre-repair, kept for the negative witness: `bumps` as it was when "changed" was `old != new`
+alone (the negation of `Val.pyEq`), so that replacing `1` by `True` did NOT advance the version
+(finding C01-F2).  Never bumps where `bumps` does not (`bumps_of_bumpsPyEq`). -/
+def bumpsPyEq (s : GState) (n : Name) (v : Val) : Bool :=
   match AL.get? s.values n with
   | .none => true
   | some old => v == .sentinel || !(Val.pyEq old v)
 
 /-- the idealised test with structural inequality (what `bumps` was before `Val.pyEq`); kept for
-negative witnesses that contrast the two -/
+negative witnesses that contrast the three -/
 def bumpsStructural (s : GState) (n : Name) (v : Val) : Bool :=
   match AL.get? s.values n with
   | .none => true
@@ -46,6 +57,15 @@ def updateValue (s : GState) (n : Name) (v : Val) : GState :=
 /-- apply an outputs dict in order (`for name, value in outputs.items(): update_value`) -/
 def applyOutputs (s : GState) (outs : AL Val) : GState :=
   outs.foldl (fun st ov => st.updateValue ov.1 ov.2) s
+
+/-- pre-repair `update_value` (the version test is `bumpsPyEq`), kept for the negative witness -/
+def updateValuePyEq (s : GState) (n : Name) (v : Val) : GState :=
+  { s with values := AL.put s.values n v
+           versions := if s.bumpsPyEq n v then AL.put s.versions n (s.ver n + 1) else s.versions }
+
+/-- pre-repair `applyOutputs`, kept for the negative witness -/
+def applyOutputsPyEq (s : GState) (outs : AL Val) : GState :=
+  outs.foldl (fun st ov => st.updateValuePyEq ov.1 ov.2) s
 end GState
 
 /-- `initialize_state` -/
